@@ -58,6 +58,12 @@ impl Prop for C01 {
                     }
                 }
             }
+            // first-byte sweeps: every mask / type byte of DataValue, DiagnosticInfo, LocalizedText, NodeId,
+            // ExpandedNodeId and the ExtensionObject body (6 x 256 points, one per case)
+            {
+                let (ty, b) = byte_sweep(case);
+                out.push(format!("dec {} {} x{}", ty, Lim::default().show(), hex(&b)));
+            }
             let k = 1 + rng.below(3);
             for _ in 0..k {
                 let depth = match rng.below(10) {
@@ -92,6 +98,11 @@ impl Prop for C01 {
                     let mut b = bytes.clone();
                     b.extend_from_slice(&SENTINEL[..rng.below(6) as usize]);
                     out.push(format!("dec {} {} x{}", v.type_name(), lim.show(), hex(&b)));
+                    // the same bytes decoded by a client that compensates clock skew (client_offset)
+                    if matches!(v, Val::V(_) | Val::DV(_)) && rng.chance(1, 3) {
+                        let off: i64 = *rng.pick(&[0i64, 1, -1, 10_000_000, -36_000_000_000, 864_000_000_000, 9_000_000_000_000_000_000, -9_000_000_000_000_000_000]);
+                        out.push(format!("deco {} {} {} x{}", v.type_name(), generous().show(), off, hex(&bytes)));
+                    }
                     if rng.chance(1, 2) && !bytes.is_empty() {
                         let mut m = bytes.clone();
                         match rng.below(4) {
@@ -270,6 +281,25 @@ impl Runner for R {
                 let (line, out) = run_sdec(name, &lim, &bytes);
                 let verdict = match out {
                     Some(Ok((_, re, len, rep))) => struct_stable(name, &re, len, rep),
+                    _ => Verdict::Ok,
+                };
+                (line, verdict)
+            }
+            ["deco", ty, opts, off, h] => {
+                let (lim, off, bytes) = match (Lim::parse(opts), off.parse::<i64>(), unhex(h)) {
+                    (Some(l), Ok(o), Some(b)) => (l, o, b),
+                    _ => return ("bad-op".to_string(), Verdict::Ok),
+                };
+                let (line, out) = run_deco(ty, &lim, off, &bytes);
+                // "the source timestamp should never be adjusted, not even when ignoring clock skew"
+                let verdict = match (out, Val::decode(ty, &bytes, &lim.options())) {
+                    (DecOut::Ok(Val::DV(a), _), Some(Ok((Val::DV(b), _)))) => {
+                        if a.source_timestamp.as_ref().map(true_ticks) != b.source_timestamp.as_ref().map(true_ticks) {
+                            Verdict::fail("source_timestamp_unadjusted", "client-offset", "source timestamp changed with the client offset")
+                        } else {
+                            Verdict::Ok
+                        }
+                    }
                     _ => Verdict::Ok,
                 };
                 (line, verdict)
